@@ -1032,6 +1032,58 @@ fn all_vtrees(leaves: &[usize]) -> Vec<VTree> {
     out
 }
 
+fn wide_minterm<'a>(b: &'a CompressionSddBuilder<'a>, m: usize, nl: usize) -> SddPtr<'a> {
+    let mut acc = SddPtr::PtrTrue;
+    for k in 0..nl {
+        acc = b.and(acc, SddPtr::Var(VarLabel::new_usize(3 + k), (m >> k) & 1 == 1));
+    }
+    acc
+}
+fn wide_lift<'a>(b: &'a CompressionSddBuilder<'a>, tts: &[TT], nl: usize, memo: &mut HashMap<(TT, usize), SddPtr<'a>>) -> SddPtr<'a> {
+    let mut acc = SddPtr::PtrFalse;
+    for (m, tt) in tts.iter().enumerate() {
+        let s = sdd_build(b, *tt, 0, 3, memo);
+        acc = b.or(acc, b.and(wide_minterm(b, m, nl), s));
+    }
+    acc
+}
+fn lifted_round<'a>(b: &'a CompressionSddBuilder<'a>, pick: &[&Value], op: &str, nl: usize) -> (Vec<Value>, usize, usize) {
+    let mut memo: HashMap<(TT, usize), SddPtr<'a>> = HashMap::new();
+    let fs: Vec<TT> = pick.iter().map(|v| tt_of(&v["f"])).collect();
+    let gs: Vec<TT> = pick.iter().map(|v| tt_of(&v["g"])).collect();
+    let es: Vec<TT> = pick.iter().map(|v| tt_of(&v["exp"])).collect();
+    let (a, bb) = (wide_lift(b, &fs, nl, &mut memo), wide_lift(b, &gs, nl, &mut memo));
+    let width = |p: SddPtr| if p.is_const() || p.is_var() { 0 } else { (if p.is_neg() { p.neg() } else { p }).node_iter().count() };
+    let res = match op { "and" => b.and(a, bb), "or" => b.or(a, bb), "xor" => b.xor(a, bb), _ => b.iff(a, bb) };
+    let mut bad: Vec<Value> = vec![];
+    let f7 = full(3);
+    let anb: Vec<TT> = fs.iter().zip(gs.iter()).map(|(f, g)| f & !g & f7).collect();
+    let nab: Vec<TT> = fs.iter().zip(gs.iter()).map(|(f, g)| (!f | g) & f7).collect();
+    let nn: Vec<TT> = fs.iter().zip(gs.iter()).map(|(f, g)| !f & !g & f7).collect();
+    let cases: Vec<(String, SddPtr<'a>, &Vec<TT>)> = vec![
+        (op.to_string(), res, &es),
+        ("and(A, not B)".to_string(), b.and(a, b.negate(bb)), &anb),
+        ("or(not A, B)".to_string(), b.or(b.negate(a), bb), &nab),
+        ("and(not A, not B)".to_string(), b.and(b.negate(a), b.negate(bb)), &nn),
+    ];
+    for (name, got, want) in cases {
+        let mut wrong = None;
+        for asg in 0..1024usize {
+            let (y, m) = (asg & 7, asg >> 3);
+            if sdd_eval(got, asg) != ((want[m] >> y) & 1 == 1) {
+                wrong = Some(asg);
+                break;
+            }
+        }
+        if let Some(asg) = wrong {
+            bad.push(json!({"what": name, "assignment": asg, "sdd_says": sdd_eval(got, asg)}));
+        } else if wide_lift(b, want, nl, &mut memo) != got {
+            bad.push(json!({"what": name, "same_pointer_as_the_disjunction_built_directly": false}));
+        }
+    }
+    (bad, width(a), width(bb))
+}
+
 pub fn replay_sddvec(args: &Args) {
     let text = std::fs::read_to_string(args.str("in", "")).expect("read vectors");
     let nv = args.num("nv", 3) as usize;
@@ -1087,7 +1139,22 @@ pub fn replay_sddvec(args: &Args) {
             for k in (1..emb.len()).rev() {
                 emb.swap(k, rng.below(k + 1));
             }
-            let lab = rng.perm(nlabels);
+            let mut lab = rng.perm(nlabels);
+            if kind < 2 {
+                // on a spine the function's variables go to the DEEP end (depths 60 .. 69: beyond the width of a machine word)
+                lab.retain(|l| !emb.contains(l));
+                let at = lab.len() - rng.below(3);
+                let mut tail = emb.clone();
+                for k in (1..tail.len()).rev() {
+                    tail.swap(k, rng.below(k + 1));
+                }
+                for (k, l) in tail.into_iter().enumerate() {
+                    lab.insert((at + k).min(lab.len()), l);
+                }
+                if kind == 1 {
+                    lab.reverse(); // left_linear puts the first label deepest
+                }
+            }
             let labels: Vec<VarLabel> = lab.iter().map(|v| VarLabel::new_usize(*v)).collect();
             let vt = match kind {
                 0 => VTree::right_linear(&labels),
@@ -1113,13 +1180,24 @@ pub fn replay_sddvec(args: &Args) {
             let mut canon: HashMap<TT, SddPtr> = HashMap::new();
             for v in vecs.iter().step_by(stride) {
                 let op = v["op"].as_str().unwrap();
-                let f = sdd_build_emb(b, tt_of(&v["f"]), 0, nv, &emb, &mut memo);
-                let g = sdd_build_emb(b, tt_of(&v["g"]), 0, nv, &emb, &mut memo);
-                let h = sdd_build_emb(b, tt_of(&v["h"]), 0, nv, &emb, &mut memo);
                 let a: Vec<usize> = v["a"].as_array().unwrap().iter().map(|x| x.as_u64().unwrap() as usize).collect();
                 let exp = tt_of(&v["exp"]);
                 let vl = |i: usize| VarLabel::new_usize(if emb.is_empty() { i } else { emb[i] });
                 t.steps += 1;
+                // the arguments are built with the library too (and / or of literals): a panic there is data as well
+                let args3 = guarded(|| {
+                    (sdd_build_emb(b, tt_of(&v["f"]), 0, nv, &emb, &mut memo), sdd_build_emb(b, tt_of(&v["g"]), 0, nv, &emb, &mut memo), sdd_build_emb(b, tt_of(&v["h"]), 0, nv, &emb, &mut memo))
+                });
+                let (f, g, h) = match args3 {
+                    Ok(x) => x,
+                    Err(m) => {
+                        t.mismatches += 1;
+                        if t.bad.len() < 10 {
+                            t.bad.push(json!({"vtree": crate::sdd_rec::vtree_json(vt), "emb": emb, "compress": compress, "vector": v, "panic_while_building_the_arguments": m}));
+                        }
+                        break; // the builder may be in any state now
+                    }
+                };
                 let r = guarded(|| match op {
                     "cond" => b.condition(f, vl(a[0]), a[1] == 1),
                     "exists" => b.exists(f, vl(a[0])),
@@ -1132,9 +1210,8 @@ pub fn replay_sddvec(args: &Args) {
                     "compose" => b.compose(f, vl(a[0]), g),
                     _ => panic!("unknown op {op}"),
                 });
-                let (ok, got) = match r {
-                    Ok(p) => {
-                        let got = sdd_tt_emb(p, nv, &emb);
+                let (ok, got) = match r.and_then(|p| guarded(|| (p, sdd_tt_emb(p, nv, &emb)))) {
+                    Ok((p, got)) => {
                         let c = *canon.entry(got).or_insert(p);
                         (got == exp && (!compress || c == p), json!(got))
                     }
@@ -1145,6 +1222,48 @@ pub fn replay_sddvec(args: &Args) {
                     if t.bad.len() < 10 {
                         t.bad.push(json!({"vtree": crate::sdd_rec::vtree_json(vt), "emb": emb, "compress": compress, "vector": v, "got_tt": got, "exp_tt": exp}));
                     }
+                }
+            }
+        }
+    }
+    // LIFTED WIDE NODES (binary vectors of 3-variable functions only): decision nodes with 128 elements. Seven further variables
+    // x3..x9 sit under the left child of the root, x0..x2 under the right; A = OR_m (minterm_m(x3..x9) AND f_m), B likewise with g_m,
+    // where (f_m, g_m, op, exp_m) are 128 vectors TLC printed for one operation. Then op(A, B) must be OR_m (minterm_m AND exp_m): on
+    // every one of the 1024 assignments, and as the SAME pointer as that disjunction built directly; the same for A AND NOT B, NOT A OR B
+    // (complemented wide operands sharing every prime by pointer).
+    if nv == 3 && vecs.iter().any(|v| v["op"] == "and") {
+        use rsdd::builder::sdd::SddBuilder;
+        let nl = 7usize;
+        for round in 0..4usize {
+            configs += 1;
+            let op = ["and", "or", "xor", "iff"][round % 4];
+            let pool: Vec<&Value> = vecs.iter().filter(|v| v["op"] == op).collect();
+            if pool.len() < 128 {
+                continue;
+            }
+            let pick: Vec<&Value> = (0..128).map(|_| pool[rng.below(pool.len())]).collect();
+            let left_labels: Vec<VarLabel> = rng.perm(nl).into_iter().map(|v| VarLabel::new_usize(v + 3)).collect();
+            let right_labels: Vec<VarLabel> = rng.perm(3).into_iter().map(VarLabel::new_usize).collect();
+            let left = if round % 2 == 0 { VTree::right_linear(&left_labels) } else { VTree::even_split(&left_labels, 2) };
+            let vt = VTree::new_node(Box::new(left), Box::new(VTree::right_linear(&right_labels)));
+            rsdd::verif::set_table_capacity(if round == 1 { 2 } else { 0 });
+            let mut bm = CompressionSddBuilder::new(vt);
+            SddBuilder::set_compression(&mut bm, true);
+            let b = &bm;
+            t.steps += 1;
+            let r = guarded(|| lifted_round(b, &pick, op, nl));
+            match r {
+                Ok((bad, wa, wb)) => {
+                    if !bad.is_empty() {
+                        t.mismatches += 1;
+                        if t.bad.len() < 10 {
+                            t.bad.push(json!({"cfg": format!("lifted wide nodes ({wa} and {wb} elements), op {op}, round {round}"), "bad": bad}));
+                        }
+                    }
+                }
+                Err(m) => {
+                    t.mismatches += 1;
+                    t.bad.push(json!({"cfg": format!("lifted wide nodes, op {op}, round {round}"), "panic": m}));
                 }
             }
         }
